@@ -154,14 +154,38 @@ class Cond:
             return (key[1],)
         return key[-1]
 
-    def edges(self, fn, eb, term):
-        """For a switch terminator: list over successors of list of (key, valueset)."""
+    def edges(self, fn, eb, term, eb_v=None):
+        """For a switch terminator: list over successors of list of (key, valueset).
+        eb_v: a builder that does not look through new lets. The key *text* comes from the looked-through
+        expression (what the rules match on); what a predicate key *depends on* comes from the variables
+        it was computed from (`let n = f(self.q); self.q.clear(); if n > 0 {..}` - the test is about the
+        value captured in n, a later write to self.q does not invalidate it)."""
         e = eb.operand(term["discr"])
+        ev = eb_v.operand(term["discr"]) if eb_v is not None else None
         out = []
-        for v, tb in term["targets"]:
-            out.append(self.constraint(fn, e, ("v", v)))
-        out.append(self.constraint(fn, e, ("else", tuple(v for v, _ in term["targets"]))))
+        labs = [("v", v) for v, tb in term["targets"]] + [("else", tuple(v for v, _ in term["targets"]))]
+        for lab in labs:
+            cs = self.constraint(fn, e, lab)
+            if ev is not None and ev != e:
+                csv = self.constraint_untracked(fn, ev, lab)
+                if len(csv) == len(cs):
+                    merged = []
+                    for (k, vs), (kv, _vsv) in zip(cs, csv):
+                        if k[0] == kv[0] and k[0] in ("expr", "call", "dexpr"):
+                            k = k[:-1] + (kv[-1],)
+                        merged.append((k, vs))
+                    cs = merged
+            out.append(cs)
         return out
+
+    def constraint_untracked(self, fn, e, lab):
+        """constraint() without the track filter (used only to read off what the keys depend on)."""
+        saved = self.track
+        self.track = lambda key: True
+        try:
+            return self.constraint(fn, e, lab)
+        finally:
+            self.track = saved
 
     def constraint(self, fn, e, lab):
         """Constraints [(key, vs)] that hold when expression e takes the edge lab."""
@@ -636,6 +660,7 @@ class Flow:
         self.cond = Cond(prog, track)
         self.track = track
         self.eb = ExprBuilder(prog, fn, user_stop=user_stop)
+        self.eb_v = ExprBuilder(prog, fn, user_stop=user_stop, look_through=False)
         self.eb_raw = ExprBuilder(prog, fn, inline=False)
         self.entry = entry if entry is not None else frozenset([TOP])
         self.gen = gen
@@ -796,7 +821,7 @@ class Flow:
                 worlds = self.call(worlds, b, t)
                 outs = [(succ[0][0], worlds)] if succ else []
             elif t["k"] == "switch":
-                cons = self.cond.edges(fn, self.eb, t)
+                cons = self.cond.edges(fn, self.eb, t, self.eb_v)
                 outs = []
                 for (tb, lab), cs in zip(succ, cons):
                     ws = set()
